@@ -44,6 +44,9 @@ type Tty struct {
 	StartFailAt  int  // fail the n-th Start (1-based); 0 = never
 	WinSizeFail  bool // WindowSize returns an error while set
 	WriteFail    bool // Write returns an error while set
+	FailWrites   int  // the next n Writes fail with nothing written
+	ShortWrite   int  // the next Write longer than this accepts only this many bytes, then fails (0 = off)
+	OnFault      func(kind string)
 	Polling      bool // polling personality: Read returns 0,nil periodically; Drain is a no-op
 	ZeroReads    int  // number of upcoming reads that return 0,nil
 	Faults       FaultCounts
@@ -234,6 +237,29 @@ func (t *Tty) Write(b []byte) (int, error) {
 		t.Faults.Inc("write_fail")
 		t.log("Write", 0, true)
 		return 0, ErrInjected
+	}
+	if t.FailWrites > 0 {
+		t.FailWrites--
+		t.Faults.Inc("write_fail")
+		t.log("Write", 0, true)
+		if t.OnFault != nil {
+			t.OnFault("write_fail")
+		}
+		return 0, ErrInjected
+	}
+	if t.ShortWrite > 0 && len(b) > t.ShortWrite && !t.Closed {
+		k := t.ShortWrite
+		t.ShortWrite = 0
+		t.Faults.Inc("write_short")
+		t.log("Write", k, true)
+		t.WriteOut += k
+		if t.OnWrite != nil {
+			t.OnWrite(t.who(), b[:k])
+		}
+		if t.OnFault != nil {
+			t.OnFault("write_short")
+		}
+		return k, ErrInjected
 	}
 	if t.Closed {
 		// a closed descriptor: the bytes go nowhere
